@@ -14,7 +14,14 @@ import common
 PROP = "C09"
 HEADER = "From Coq Require Import ZArith List.\nImport ListNotations.\nFrom IBL.C09 Require Import Run."
 TRUSTED = [
-    "Coq 8.16.1 kernel + vm_compute (no native_compute); all C09 theorems: Closed under the global context",
+    "Coq 8.16.1 kernel + vm_compute (no native_compute); the 24 theorems of Props.v: Closed under the global context "
+    "(enforced by the check); the 2 rounding-budget theorems of PropsR.v use the standard library's real numbers "
+    "(ClassicalDedekindReals.sig_forall_dec, FunctionalExtensionality.functional_extensionality_dep)",
+    "IEEE standard model (each float32 / float64 operation within 2^-24 / 2^-53 relative, no underflow) as explicit "
+    "hypotheses of C09_s2v_float32_budget / C09_ns_float64_budget, which justify the 1e-6 tolerance and the exact product",
+    "C09_float_value_roundtrip / C09_float_dict_roundtrip hypotheses repr_roundtrip (float(np.format_float_positional(x, "
+    "trim='-')) == x, normal-form digits) and int_exact (float(str(int(x))) == x for integer-valued x): facts about "
+    "CPython/NumPy conversions, sampled on every run (kind repr_hypothesis)",
     "hand-written model coq/C09/Model.v of spikeglx.read_meta_data / write_meta_data / _get_*_from_meta / "
     "_conversion_sample2v_from_meta, tied to /repo/src by this run's correspondence",
     "floats from literals are modelled as exact decimals (m, s): faithful for mantissa < 10^15 and <= 290 "
@@ -83,7 +90,11 @@ def enc_dict(d):
 
 
 def enc_zopt(o):
-    return [0] if o is None else [1, int(o)]
+    if o is None:
+        return [0]
+    if isinstance(o, (int, np.integer)) and not isinstance(o, bool):
+        return [1, int(o)]
+    return [-4]          # a result of the wrong type never equals the model's integer
 
 
 def guarded(f, *a):
@@ -108,6 +119,7 @@ def impl_observe(text, tmp, full_reader=False):
         obs["read_exc"] = md
         return obs
     obs["md"] = md
+    obs["md_enc0"] = enc_dict(md)          # deep snapshot: the functions below must not change md
     q = tmp / "y.imec0.ap.meta"
     spikeglx.write_meta_data(md, q)
     obs["written"] = q.read_bytes().decode("utf-8")
@@ -121,7 +133,7 @@ def impl_observe(text, tmp, full_reader=False):
     ok_s, md_s = guarded(spikeglx.read_meta_data, str(p))
     seq["read_str_eq_path"] = bool(ok_s and enc_dict(md_s) == enc_dict(md))
     s = tmp / "seq.imec0.ap.meta"
-    s.write_bytes(b"stale=1\n" * 3000)
+    s.write_bytes(b"stale=1\n" * 400)
     spikeglx.write_meta_data(md, str(s))
     b1 = s.read_bytes()
     seq["write_str_eq_path"] = b1 == q.read_bytes()
@@ -172,6 +184,7 @@ def impl_observe(text, tmp, full_reader=False):
                 obs["full"] = "exc:" + type(e).__name__
             finally:
                 logging.disable(logging.NOTSET)
+    obs["mutated"] = enc_dict(md) != obs["md_enc0"]
     return obs
 
 
@@ -243,11 +256,11 @@ def enc_impl(obs, model_out):
     if model_out and model_out[0] >= 1 and len(model_out) > model_out[0]:
         msec = model_out[1:1 + model_out[0]]
     sec, why = enc_impl_s2v(obs, msec)
-    out = [len(sec)] + sec + [1] + enc_dict(obs["md"]) + enc_str(obs["written"]) + [1 if obs["reread_canon"] else 0]
+    out = [len(sec)] + sec + [1] + obs["md_enc0"] + enc_str(obs["written"]) + [1 if obs["reread_canon"] else 0]
     ok, v = obs["version"]
-    out += [0] if v is None else [1, VERS.index(v)]
+    out += [0] if v is None else [1, VERS.index(v) if v in VERS else -9]
     ok, t = obs["type"]
-    out += [-1] if not ok else [0] if t is None else [STREAM[t]]
+    out += [-1] if not ok else [0] if t is None else [STREAM.get(t, -9) if isinstance(t, str) else -9]
     ok, n = obs["nc"]
     out += enc_zopt(n if ok else None)
     ok, idx = obs["sync"]
@@ -653,17 +666,24 @@ def check_direct(ctx, n):
         for i in range(n):
             d = gen_direct(rng)
             p = tmp / "d.meta"
+            d0 = json.loads(json.dumps(d))
             try:
-                spikeglx.write_meta_data(d, p if i % 2 else str(p))
-                back = spikeglx.read_meta_data(str(p) if i % 2 else p)
-            except ERRS as e:
-                ctx.fail("write/read of a dictionary raised %s" % type(e).__name__, {"cls": "direct", "dict": d},
+                def wr():
+                    spikeglx.write_meta_data(d, p if i % 2 else str(p))
+                    return spikeglx.read_meta_data(str(p) if i % 2 else p)
+                back = with_time_limit(30, wr)
+                got = {k: v for k, v in back.items() if k not in ("neuropixelVersion", "serial")}
+                same = got == d0 and list(got) == list(d0) and all(type(got[k]) is type(d0[k]) for k in d0)
+            except (Exception, CaseTimeout) as e:
+                ctx.fail("write/read of a dictionary raised %s" % type(e).__name__, {"cls": "direct", "dict": d0},
                          {"kind": "direct_exception"})
                 continue
-            got = {k: v for k, v in back.items() if k not in ("neuropixelVersion", "serial")}
-            if got != d or list(got) != list(d):
-                bad = [k for k in d if got.get(k) != d[k]]
-                ctx.fail("read(write(d)) != d at key(s) %r" % bad[:3], {"cls": "direct", "dict": d},
+            if d != d0:
+                ctx.fail("write_meta_data changed the dictionary it was given", {"cls": "direct", "dict": d0},
+                         {"kind": "mutates_input"})
+            if not same:
+                bad = [k for k in d0 if got.get(k) != d0[k] or type(got.get(k)) is not type(d0[k])]
+                ctx.fail("read(write(d)) != d at key(s) %r" % bad[:3], {"cls": "direct", "dict": d0},
                          {"kind": "direct_roundtrip"})
             done += 1
         for i in range(4 * n):
@@ -703,6 +723,8 @@ def oracle_seq(obs, in_grammar):
     """str vs Path arguments; write / read / write / read on one path that held a longer file"""
     s = obs["seq"]
     bad = []
+    if obs.get("mutated"):
+        bad.append(("a metadata function changed the dictionary it was given", "mutates_input"))
     if not s["read_str_eq_path"] or not s["write_str_eq_path"]:
         bad.append(("str and Path arguments give different results, or a longer previous file is not truncated",
                     "path_str"))
@@ -750,6 +772,10 @@ def oracle_probe(obs, it):
         bad.append(("sample count %r, expected %r" % (obs["r_ns"], it["ns"]), "ns"))
     if val("maxint") != it["maxint"]:
         bad.append(("max int %r, expected %r" % (obs["maxint"], it["maxint"]), "maxint"))
+    for name in ("nc", "r_nc", "r_nsync", "r_ns", "maxint"):
+        ok, v = obs[name]
+        if ok and (not isinstance(v, (int, np.integer)) or isinstance(v, bool)):
+            bad.append(("%s is a %s, not an integer" % (name, type(v).__name__), "result_type"))
     s = val("s2v")
     if s is not None:
         want_keys = ["nidq"] if it["kind"] == "nidq" else ["ap", "lf"]
@@ -825,21 +851,67 @@ def describe_case(c):
     return d
 
 
+class CaseTimeout(BaseException):
+    pass
+
+
+def _alarm(signum, frame):
+    raise CaseTimeout()
+
+
+def with_time_limit(seconds, f, *a, **k):
+    """run f under a wall-clock limit (SIGALRM; pure-Python metadata functions cannot block signals)"""
+    import signal
+    old = signal.signal(signal.SIGALRM, _alarm)
+    signal.setitimer(signal.ITIMER_REAL, seconds)
+    try:
+        return f(*a, **k)
+    finally:
+        signal.setitimer(signal.ITIMER_REAL, 0)
+        signal.signal(signal.SIGALRM, old)
+
+
 def observe_all(ctx, cases):
     tmp = common.tmpdir("C09_run_")
+    slow = 0
     try:
         for c in cases:
+            if slow >= 3:               # a hanging implementation: do not spend the budget on every case
+                c["obs"] = None
+                continue
             try:
-                c["obs"] = impl_observe(c["text"], tmp, full_reader=c.get("full", False))
-            except Exception as e:      # an exception class the metadata layer has no business raising
+                c["obs"] = with_time_limit(30, impl_observe, c["text"], tmp, full_reader=c.get("full", False))
+            except CaseTimeout:
+                slow += 1
+                c["obs"] = None
+                ctx.fail("metadata functions did not return within 30 s", describe_case(c), {"kind": "timeout"})
+            except BaseException as e:   # an exception class the metadata layer has no business raising
+                if isinstance(e, KeyboardInterrupt):
+                    raise
                 c["obs"] = None
                 ctx.fail("metadata functions raised %r" % (e,), describe_case(c), {"kind": "unexpected_exception"})
     finally:
         shutil.rmtree(tmp, ignore_errors=True)
 
 
+def guard_case(ctx, desc, what, f, *a):
+    """evaluate an oracle / canonicaliser on one observation; an observation it cannot digest (wrong
+    type, rank, container) is a failing input of the property, not a harness crash"""
+    try:
+        return f(*a)
+    except Exception as e:
+        ctx.fail("%s: the implementation's result cannot be interpreted (%s: %s)" % (what, type(e).__name__, e),
+                 desc, {"kind": "malformed_result"})
+        return None
+
+
 def run(ctx):
-    common.proof_obligations(ctx, whitelist=[])
+    # Props: every theorem must be closed under the global context; PropsR (rounding-error budget over
+    # the reals) may use the standard library's real-number axioms and nothing else
+    common.proof_obligations(ctx, whitelist=sorted(common.STDLIB_AXIOMS), modules=("Props", "PropsR"))
+    for n in common.theorem_names(common.COQ / PROP / "Props.v"):
+        if n in ctx.theorems and ctx.theorems[n] != "Closed under the global context":
+            ctx.broken_proofs.append({"theorem": n, "why": "uses axioms %s; Props.v theorems must be closed" % ctx.theorems[n]})
     cases = build_cases(ctx)
     observe_all(ctx, cases)
     dist = {"grammar": 0, "bigdigits": 0, "probe": 0, "malformed": 0, "read_raises": 0, "s2v_raises": 0,
@@ -854,26 +926,26 @@ def run(ctx):
         desc = describe_case(c)
         if c["cls"] in ("grammar", "bigdigits"):
             dist["roundtrip_checked"] += 1
-            for what, kind in oracle_grammar(obs, c["exp"]):
+            for what, kind in guard_case(ctx, desc, "round-trip oracle", oracle_grammar, obs, c["exp"]) or []:
                 ctx.fail(what, desc, {"kind": kind, "cls": c["cls"]})
             body = c["text"]
             dist["nonlf_separators"] += any(s in body for s in SEPS[3:])
             dist["tilde_keys"] += "~" in body
             dist["duplicate_keys"] += c["text"].count("=") > len(c["exp"]) and len(c["exp"]) > 0
-            if obs["read_ok"] and len(obs["md"]) > 3:
+            if obs["read_ok"] and obs["md_enc0"][0] > 3:
                 nontrivial.add(c["text"])
         elif c["cls"] == "probe":
             it = c["intent"]
             dist["probe_kinds"][it["kind"]] = dist["probe_kinds"].get(it["kind"], 0) + 1
             dist["subset_not_prefix"] += not it["subset_prefix"]
             dist["nonuniform_gain_tables"] += len(set(g for g in it["gains"] if g is not None)) > 1
-            for what, kind in oracle_probe(obs, it):
+            for what, kind in guard_case(ctx, desc, "derived-parameter oracle", oracle_probe, obs, it) or []:
                 ctx.fail(what, desc, {"kind": kind, "subset_prefix": bool(it["subset_prefix"]), "probe": it["kind"]})
             if c.get("full"):
-                dist["full_reader"] += check_full_reader(obs, ctx, desc)
+                dist["full_reader"] += bool(guard_case(ctx, desc, "Reader oracle", check_full_reader, obs, ctx, desc))
             nontrivial.add(c["text"])
         if c["cls"] == "malformed" and obs["read_ok"]:
-            for what, kind in oracle_seq(obs, False):
+            for what, kind in guard_case(ctx, desc, "sequence oracle", oracle_seq, obs, False) or []:
                 ctx.fail(what, desc, {"kind": kind, "cls": c["cls"]})
         if not obs["read_ok"]:
             dist["read_raises"] += 1
@@ -887,7 +959,11 @@ def run(ctx):
     model = common.Extracted(PROP).run_many(inputs)
     impl_out = []
     for c, mo in zip(sel, model):
-        enc, why = enc_impl(c["obs"], mo)
+        r = guard_case(ctx, describe_case(c), "canonical encoding", enc_impl, c["obs"], mo)
+        enc, why = r if r is not None else ([-99], None)
+        # only plain integers may reach the comparison: anything else (arrays, floats, strings that slipped
+        # into a slot meant for an integer) becomes a value the model never produces
+        enc = [int(x) if isinstance(x, (int, np.integer)) and not isinstance(x, bool) else -5 for x in enc]
         enc = fix_sync_start(mo, enc)
         if any(abs(x) >= BIG for x in enc):
             enc = [x if abs(x) < BIG else -8 for x in enc]
@@ -900,10 +976,13 @@ def run(ctx):
         o = c["obs"]
         if o is None:
             continue
-        samples.append({"cls": c["cls"], "text": c["text"][:160],
-                        "parsed": {k: (v if not isinstance(v, str) else v[:40]) for k, v in list(o["md"].items())[:6]}
-                        if o["read_ok"] else o["read_exc"],
-                        "version": o.get("version", [None, None])[1] if o["read_ok"] else None})
+        try:
+            samples.append({"cls": c["cls"], "text": c["text"][:160],
+                            "parsed": {str(k): (v if not isinstance(v, str) else v[:40])
+                                       for k, v in list(o["md"].items())[:6]} if o["read_ok"] else o["read_exc"],
+                            "version": o.get("version", [None, None])[1] if o["read_ok"] else None})
+        except Exception:
+            samples.append({"cls": c["cls"], "text": c["text"][:160], "parsed": "uninterpretable"})
     return common.finish(
         ctx, TRUSTED,
         rule="synthetic .meta texts from ctx.rng: (grammar) random key=value files over the property's grammar — "
